@@ -175,9 +175,16 @@ MapAdmissible(m, r, a, fill, j) == IF MapIsFill(r, j) THEN {fill} ELSE {At(m.n, 
 (* result holding the other axes; WithAx puts them together again (C07_TabFaithful).    *)
 AxPart(r, d)       == IF r.ok THEN [ok |-> TRUE, s |-> r.ax[d], alt |-> r.alt[d]] ELSE Rej
 WithAx(base, d, a) == IF a.ok THEN [base EXCEPT !.ax[d] = a.s, !.alt[d] = a.alt] ELSE Rej
+(* requests with a coordinate outside the region are paired with a few partners only     *)
+(* (rejections are all alike, and expensive in the library)                              *)
+OutAx(m, d)        == {m.lo[d] - Q(m, d), Hi(m, d) + Q(m, d)}
+FewAx(m, d)        == OutAx(m, d) \cup {m.lo[d], m.lo[d] + Q(m, d), Hi(m, d)}
+OutPairOK(m, d, q) == /\ (q[1] \in OutAx(m, d) => q[2] \in FewAx(m, d))
+                      /\ (q[2] \in OutAx(m, d) => q[1] \in FewAx(m, d))
 RangePairs(m, d)   == {q \in RProbesAx(m, d) \X RProbesAx(m, d) :
-                          q[1] <= q[2] \/ q[2] \in {m.lo[d] - Q(m, d), m.lo[d], m.lo[d] + Q(m, d)}}
-BoxPairs(m, d)     == {q \in RProbesAx(m, d) \X RProbesAx(m, d) : q[1] < q[2]}
+                          /\ OutPairOK(m, d, q)
+                          /\ (q[1] <= q[2] \/ q[2] \in {m.lo[d] - Q(m, d), m.lo[d], m.lo[d] + Q(m, d)})}
+BoxPairs(m, d)     == {q \in RProbesAx(m, d) \X RProbesAx(m, d) : q[1] < q[2] /\ OutPairOK(m, d, q)}
 FacePairs(m, d)    == {q \in FaceProbesAx(m, d) \X FaceProbesAx(m, d) : q[1] < q[2]}
 DiagPairs(m)       == {q \in DiagKinds \X DiagKinds : \A d \in Dims(m) : DiagAx(m, d, q[1]) < DiagAx(m, d, q[2])}
 DiagBox(m, q)      == [lo |-> [d \in Dims(m) |-> DiagAx(m, d, q[1])], hi |-> [d \in Dims(m) |-> DiagAx(m, d, q[2])]]
@@ -199,26 +206,32 @@ Init == /\ mesh \in Meshes
         /\ act = <<"new">>
         /\ obs = [n |-> mesh.n]
 
+Fresh == act[1] = "new"
 QSelCentre == \E d \in Dims(mesh) :
+      /\ Fresh
       /\ act' = <<"sel_centre", d>>
       /\ obs' = SelCentreRes(mesh, d)
       /\ UNCHANGED <<mesh, subs>>
 QSelPoint == \E d \in Dims(mesh) :
+      /\ Fresh
       /\ act' = <<"sel_point", d>>
       /\ obs' = [base |-> SelPointRes(mesh, d, mesh.lo[d]),
                  tab  |-> [x \in ProbesAx(mesh, d) |-> AxPart(SelPointRes(mesh, d, x), d)]]
       /\ UNCHANGED <<mesh, subs>>
 QSelRange == \E d \in Dims(mesh) :
+      /\ Fresh
       /\ act' = <<"sel_range", d>>
       /\ obs' = [base |-> SelRangeRes(mesh, d, mesh.lo[d], mesh.lo[d]),
                  tab  |-> [p \in RangePairs(mesh, d) |-> AxPart(SelRangeRes(mesh, d, p[1], p[2]), d)]]
       /\ UNCHANGED <<mesh, subs>>
 QGetName == \E k \in DOMAIN subs :
+      /\ Fresh
       /\ act' = <<"getitem_name", subs[k].name>>
       /\ obs' = AlignedBoxRes(mesh, subs[k].box)
       /\ UNCHANGED <<mesh, subs>>
 QGetBox == \E d \in Dims(mesh), kind \in OtherKinds :
       /\ subs = <<>>
+      /\ Fresh
       /\ act' = <<"getitem_box", d, kind>>
       /\ obs' = [box  |-> BoxFor(mesh, d, kind, mesh.lo[d], Hi(mesh, d)),
                  base |-> GetBoxRes(mesh, BoxFor(mesh, d, kind, mesh.lo[d], Hi(mesh, d))),
@@ -226,11 +239,13 @@ QGetBox == \E d \in Dims(mesh), kind \in OtherKinds :
       /\ UNCHANGED <<mesh, subs>>
 QGetDiag ==
       /\ subs = <<>>
+      /\ Fresh
       /\ act' = <<"getitem_diag">>
       /\ obs' = [p \in DiagPairs(mesh) |-> [box |-> DiagBox(mesh, p), r |-> GetBoxRes(mesh, DiagBox(mesh, p))]]
       /\ UNCHANGED <<mesh, subs>>
 QRegion2Slices == \E d \in Dims(mesh) :
       /\ subs = <<>>
+      /\ Fresh
       /\ act' = <<"region2slices", d>>
       /\ obs' = [box  |-> RegionOf(mesh),
                  base |-> AlignedBoxRes(mesh, RegionOf(mesh)),
@@ -239,20 +254,22 @@ QRegion2Slices == \E d \in Dims(mesh) :
 (* pad: per axis and per <<cells below, cells above>> *)
 QPad == \E mode \in PadModes :
       /\ subs = <<>>
+      /\ Fresh
       /\ act' = <<"pad", mode>>
       /\ obs' = [d \in Dims(mesh) |-> [w \in PadW \X PadW |-> PadAx(mesh, d, mode, w[1], w[2])]]
       /\ UNCHANGED <<mesh, subs>>
 (* resample: per axis and per target count (the unchanged count included) *)
 QResample ==
       /\ subs = <<>>
+      /\ Fresh
       /\ act' = <<"resample">>
       /\ obs' = [d \in Dims(mesh) |-> [k \in ResN \cup {mesh.n[d]} |-> ResAx(mesh, d, k)]]
       /\ UNCHANGED <<mesh, subs>>
 
-Fresh == act[1] = "new"
-Queries == \/ QSelCentre \/ QSelPoint \/ QSelRange \/ QGetName \/ QGetBox \/ QGetDiag
-           \/ QRegion2Slices \/ QPad \/ QResample
-Next == Fresh /\ Queries
+(* queries are issued from the fresh state only: they do not change the mesh, so nothing new is  *)
+(* reachable behind a query state (deadlock checking is off)                                     *)
+Next == \/ QSelCentre \/ QSelPoint \/ QSelRange \/ QGetName \/ QGetBox \/ QGetDiag
+        \/ QRegion2Slices \/ QPad \/ QResample
 Spec == Init /\ [][Next]_vars
 
 (* ---- the property, clause by clause ------------------------------------------------- *)
